@@ -22,7 +22,10 @@ RULE = (
     "a lazily chained iterable; result rows are collected as objects before they are compared.  8 % of the levels stack "
     "5-9 unary operations, 15 % of the binary operations are immediately followed by another one (three-way chains), "
     "and 15 % of the cases mix int / float / bool / -0.0 representations of equal numbers in the leaf rows, compared "
-    "type-sensitively, so which of several equal rows a deduplication or a stable sort lets through is observable. "
+    "type-sensitively, so which of several equal rows a deduplication or a stable sort lets through is observable; "
+    "20 % of the numeric literals are floats / bools equal to the integer drawn and 12 % of the calculations and "
+    "selections reuse an earlier expression of the case with its literals re-typed (expressions that compare equal "
+    "without being the same). "
 )
 ASSUMPTIONS = [
     "reference model vmon/model.py (full-row first-occurrence deduplication, stable multi-key sort via comparator)",
@@ -39,6 +42,7 @@ CFG = dict(
     tall_prob=0.08,
     wide_prob=0.15,
     flavour_prob=0.15,
+    lookalike_prob=0.12,
 )
 
 
@@ -49,6 +53,9 @@ def budget(tier):
 
 
 def gen_case(rng, tier):
+    from .. import exprs
+
+    exprs.LIT_KINDS = 0.2  # float / bool literals equal to the integer drawn; results are compared type-sensitively
     cfg = gen.Cfg(**CFG, max_depth=2 if tier == "quick" or rng.random() < 0.6 else 3)
     g = gen.Gen(rng, cfg)
     state = g.tree()
